@@ -3,6 +3,7 @@
 package chain
 
 import (
+	"sync/atomic"
 	"time"
 
 	"github.com/aergoio/aergo/v2/state"
@@ -25,8 +26,8 @@ func (cs *ChainService) VerifGetReceipts(blockHash []byte) (*types.Receipts, err
 func (cs *ChainService) VerifGetBlockByNo(no types.BlockNo) (*types.Block, error) {
 	return cs.getBlockByNo(no)
 }
-func (cs *ChainService) VerifOrphanCount() int   { return len(cs.op.cache) }
-func (cs *ChainService) VerifErrBlocksLen() int  { return cs.errBlocks.Len() }
+func (cs *ChainService) VerifOrphanCount() int  { return len(cs.op.cache) }
+func (cs *ChainService) VerifErrBlocksLen() int { return cs.errBlocks.Len() }
 func (cs *ChainService) VerifHasReorgMarker() bool {
 	m, err := cs.cdb.getReorgMarker()
 	return err == nil && m != nil
@@ -68,8 +69,17 @@ func (cs *ChainService) VerifStop() {
 	cs.VerifQuiesce()
 	cs.chainManager.Stop()
 	cs.chainWorker.Stop()
+	if sv := cs.validator.signVerifier; sv.verifJobs.Load() != sv.verifGot.Load() {
+		// verification jobs whose results nobody collected are still parked in the workers: leave
+		// them (a leak inside the simulator process) rather than close the channels under them
+		VerifLeftoverVerifyJobs.Add(1)
+		return
+	}
 	cs.validator.Stop()
 }
+
+// VerifLeftoverVerifyJobs counts stops that found uncollected per-transaction verification results.
+var VerifLeftoverVerifyJobs atomic.Int64
 
 func VerifSetCoinbase(a []byte) { CoinbaseAccount = a }
 func VerifCoinbase() []byte     { return CoinbaseAccount }
